@@ -187,6 +187,20 @@ def evaluate(case):
         hash_matches = case['wpreimage'] == 'right' if case['wpreimage'] != 'wrong' else None
     matched = _matched(case, hash_matches)
     info = {'expected': exp, 'deadline': truth['deadline'], 'matched': matched}
+    if got is True and exp:
+        # the accepted witness again, in the same process, over other sigfield contents: the reference decides
+        case2 = dict(case, fields={k: v + b'!' for k, v in case['fields'].items()})
+        info['replayed'] = True
+        if not ref_accept(case2, truth, items):
+            env.pin_clock(case['now'])
+            old2 = F.flags['ts_threshold']
+            F.flags['ts_threshold'] = case['thr']
+            try:
+                if F.run_auth_scripts([wit, lock], dict(case2['fields'], timestamp=case['t'])):
+                    fails.append(('tlc/%s/accepted-witness-still-accepted-over-other-sigfield-contents' % case['lock'], 'witness %s' % case['witness']))
+            finally:
+                F.flags['ts_threshold'] = old2
+                env.unpin_clock()
     if matched is True and not got:
         fails.append(('tlc/%s/builder-witness-fails-although-its-path-condition-holds' % case['lock'],
                       'witness %s signer %s t-deadline=%d: reference on its stack says %r' % (
